@@ -21,7 +21,9 @@ K_TARGET = 3     # UCSReplication.__init__ default, never overridden by Resilien
 RULE = ("random deployments of 2-6 agents with 0-2 active computations each (mostly 1-2), random symmetric "
         "computation graphs (8% asymmetric), integer footprints/capacities (tight to loose), hosting costs and "
         "route costs (90% symmetric as the YAML loader enforces, 10% asymmetric for the assertion branches; 3% of "
-        "the symmetric ones with a negative default route = known finding C25-negative-route-assert), "
+        "the symmetric ones with a negative default route = known finding C25-negative-route-assert), plus a 7% "
+        "ORACLE-ONLY stream (not modelled) of 3-5 agent chains with decimal / non-dyadic float route and hosting "
+        "costs (0.1-multiples, thirds) run to quiescence, "
         "replication level k in 1..3; real ResilientAgent + UCSReplication + Discovery objects of all agents in "
         "one process, driven thread-free by per-channel-FIFO schedules from 5 policies (at most one message is "
         "ever held by a not-yet-started computation); 75% of the runs go to quiescence, 25% are cut at a random "
@@ -129,7 +131,7 @@ def _gen_float(rng):
         own = sum(c[1] for c in a["comps"])
         a["cap"] = own + rng.choice([3, 6, 10, 20, 40, 40])
     return dict(agents=agents, k=rng.randint(1, 3), sym=True, graph_sym=True, seed=rng.randrange(10 ** 9),
-                full=True, steps=4000, float=True)
+                full=True, steps=1500, float=True)
 
 
 def gen(rng, n, tier):
@@ -403,7 +405,7 @@ def oracle(c, o):
             return "agent %d recorded replica c%02d with owner %s footprint %s" % (h, comp, own, f)
         need = X(f) + _worst([[b[0], b[1], X(b[2])] for b in before], k - 1)
         if remaining[h] < need:
-            return ("agent %d accepted c%02d (footprint %d) with remaining capacity %d < %d = footprint + "
+            return ("agent %d accepted c%02d (footprint %s) with remaining capacity %s < %s = footprint + "
                     "worst case for %d owners of %s" % (h, comp, f, remaining[h], need, k - 1, before))
         if h == own:
             return "owner %d accepted a replica of its own computation c%02d" % (h, comp)
